@@ -660,43 +660,42 @@ func (e *Engine) mapOrderActive() bool {
 	return false
 }
 
-// rangePermutations forks over all iteration orders of a map (nondeterministic map order), bounded to 4 entries.
+// rangePermutations realises nondeterministic map iteration order inside the functions named by vp:maporder. A mode
+// (insertion order, reversed, rotated by one) is chosen nondeterministically the first time such a range is met and
+// then applies to every such range until vpMapOrderReset() (so two runs inside one harness get independent modes).
+// Bound: three of the n! orders per map, the same mode for all maps of one run.
 func (e *Engine) rangePermutations(st *State, it *IterObj) []Outcome {
 	n := len(it.Keys)
-	if n > 4 {
-		panic(e.abort("nondeterministic map order over %d entries not supported (max 4)", n))
-	}
-	var outs []Outcome
-	perm := make([]int, n)
-	for i := range perm {
-		perm[i] = i
-	}
-	var rec func(k int)
-	rec = func(k int) {
-		if k == n {
-			keys := make([]Value, n)
-			vals := make([]Value, n)
-			for i, pi := range perm {
-				keys[i], vals[i] = it.Keys[pi], it.Vals[pi]
+	apply := func(s *State, mode int) Outcome {
+		keys := make([]Value, n)
+		vals := make([]Value, n)
+		for i := 0; i < n; i++ {
+			j := i
+			switch mode {
+			case 1:
+				j = n - 1 - i
+			case 2:
+				j = (i + 1) % n
 			}
-			s := st.fork()
-			sel := e.tb.Fresh("maporder", 8)
-			_ = sel
-			id := e.alloc(s, &IterObj{Keys: keys, Vals: vals})
-			outs = append(outs, Outcome{st: s, ret: &IterV{Obj: id}})
-			return
+			keys[i], vals[i] = it.Keys[j], it.Vals[j]
 		}
-		for i := k; i < n; i++ {
-			perm[k], perm[i] = perm[i], perm[k]
-			rec(k + 1)
-			perm[k], perm[i] = perm[i], perm[k]
-		}
+		id := e.alloc(s, &IterObj{Keys: keys, Vals: vals})
+		return Outcome{st: s, ret: &IterV{Obj: id}}
 	}
-	rec(0)
-	// make the alternatives mutually exclusive through a selector variable
+	if m, ok := st.aux["maporder.mode"]; ok {
+		return []Outcome{apply(st, int(m.(*Term).Val))}
+	}
 	sel := e.tb.Fresh("maporder", 8)
-	for i := range outs {
-		outs[i].st.assume(e.tb.Eq(sel, e.tb.Const(8, uint64(i))))
+	st.log = append(st.log[:len(st.log):len(st.log)], LogEntry{Name: sel.Name, Kind: "u8", T: []*Term{sel}})
+	var outs []Outcome
+	for mode := 0; mode < 3; mode++ {
+		s := st
+		if mode < 2 {
+			s = st.fork()
+		}
+		s.assume(e.tb.Eq(sel, e.tb.Const(8, uint64(mode))))
+		s.setAux("maporder.mode", e.tb.Const(8, uint64(mode)))
+		outs = append(outs, apply(s, mode))
 	}
 	return outs
 }
